@@ -17,6 +17,7 @@ package nutsdb
 import (
 	"encoding/binary"
 	"hash/crc32"
+	"io"
 	"os"
 	"sort"
 )
@@ -97,6 +98,9 @@ func ReadBPTreeRootIdxAt(fd *os.File, off int64) (*BPTreeRootIdx, error) {
 	}
 
 	off += BPTreeRootIdxHeaderSize
+	if err = checkFits(fd, off, int64(bri.startSize)+int64(bri.endSize)); err != nil {
+		return nil, err
+	}
 	startBuf := make([]byte, bri.startSize)
 	_, err = fd.ReadAt(startBuf, off)
 	if err != nil {
@@ -171,4 +175,21 @@ type sortBy func(p, q *BPTreeRootIdx) bool
 // SortFID sorts BPTreeRootIdx data.
 func SortFID(BPTreeRootIdxGroup []*BPTreeRootIdx, by sortBy) {
 	sort.Sort(BPTreeRootIdxWrapper{BSGroup: BPTreeRootIdxGroup, by: by})
+}
+
+// checkFits returns io.EOF, the error a read of the bytes would end in, when
+// the n bytes at off do not lie inside the file. The lengths in a record
+// header can only be verified (by the checksum) after the keys they describe
+// are read, so a damaged header must not decide how much memory is allocated.
+func checkFits(fd *os.File, off, n int64) error {
+	fi, err := fd.Stat()
+	if err != nil {
+		return err
+	}
+
+	if off+n > fi.Size() {
+		return io.EOF
+	}
+
+	return nil
 }
